@@ -66,9 +66,27 @@ class ProgramRunner(object):
         snap = {'label': label, 'versions': t.dump_versions(), 'txs': t.dump_txs(), 'assoc': t.dump_assoc(),
                 'changes': t.dump_changes(), 'live': self.dump_livev(), 'links': t.dump_links(),
                 'mgr': t.manager_state()}
+        if 'activity' in self.info.plugins:
+            snap['activities'] = self.dump_activities()
         self.markers.append(snap)
         t.lines.append('qdump %d' % (len(self.markers) - 1))
         return snap
+
+    def dump_activities(self):
+        """activity rows 'id obj tgt tx objtx tgttx' with obj/tgt as 'tid:pk' of the base version table"""
+        base = {}
+        for cname in self.info.class_names:
+            if self.info.tables[cname]:
+                base[cname] = self.info.tables[cname][0][0]
+        out = []
+        q = 'SELECT id, transaction_id, object_type, object_id, object_tx_id, target_type, target_id, target_tx_id FROM activity'
+        for (i, tx, ot, oi, otx, tt, ti, ttx) in self.tracer.q(q):
+            def key(t, k):
+                return 'N' if t is None or k is None else '%d:%d' % (base.get(t, 999), k)
+            out.append('%d %s %s %s %s %s' % (i, key(ot, oi), key(tt, ti), 'N' if tx is None else tx,
+                                              'N' if otx is None else otx, 'N' if ttx is None else ttx))
+        out.sort(key=lambda r: int(r.split(' ')[0]))
+        return out
 
     def dump_livev(self):
         """for every version table: the rows of its parent table projected on the version
@@ -139,6 +157,16 @@ class ProgramRunner(object):
                 if tgt not in coll:
                     return 'skip'
                 coll.remove(tgt)
+        elif op == 'activity':
+            _, verb, cname, pk, tcls, tpk = step
+            obj = self.find(cname, pk)
+            tgt = self.find(tcls, tpk) if tcls else None
+            if obj is None or (tcls and tgt is None) or sa.inspect(obj).pending or (tgt is not None and sa.inspect(tgt).pending):
+                return 'skip'
+            Activity = versioning_manager.activity_cls
+            act = Activity(verb='v%d' % verb, object=obj, target=tgt)
+            s.add(act)
+            self.keepalive.append(act)
         elif op == 'flush':
             s.flush()
         elif op == 'commit':
